@@ -589,6 +589,17 @@ def _fde_cases(ctx):
             hpfilter=rng.choice([None, None, 5.0, 2.0]), detrend=rng.random() < 0.5,
             winends=rng.choice(["none", "none", "auto"]), T0=rng.choice([60.0, 7.5]), layout=rng.choice(["C", "C", "strided", "reversed"]),
         ))
+    # how the frequencies are shared out among the workers: every worker count up to the CPU count with frequency counts
+    # that are not multiples of it, in particular the pairs where LF / ncpu * ncpu rounds below LF in floating point
+    # (a block split computed with float edges loses the last frequency there)
+    ncpus = os.cpu_count() or 1
+    tricky = [(LF, nc) for nc in range(2, min(ncpus, 16) + 1) for LF in range(nc + 1, 65) if int(nc * (LF / nc)) < LF]
+    plain = [(LF, nc) for nc in range(2, min(ncpus, 16) + 1) for LF in (nc + 1, 2 * nc - 1, 2 * nc + 1, 3 * nc + 2)]
+    for LF, nc in rng.sample(tricky, min(len(tricky), ctx.pick(5, 40))) + rng.sample(plain, min(len(plain), ctx.pick(3, 30))):
+        out.append(dict(resp=rng.choice(["absacce", "pvelo"]), LF=LF, N=rng.randint(300, 600), nbins=rng.choice([8, 20]),
+                        maxcpu=nc, pattern="none", dup_freq=False, seed=rng.randint(0, 10 ** 6), fdtype="float64",
+                        sdtype="float64", rolloff="none", ppc=12, hpfilter=None, detrend=False, winends="none", T0=60.0,
+                        layout="C", split=True))
     return out + [
         # exact boundary values: an event repeated later at exactly 1/2 (1/4) level after every oscillator has rung
         # down, nothing that breaks the exact scaling (no detrend / window / filter / resampling): the largest cycle of
